@@ -1,0 +1,33 @@
+// Copyright 2026. Contracts for deductive verification (gowp).
+// This file contains only comments; it is compiled only with -tags verif
+// and adds nothing to the package.
+
+//go:build verif
+
+package scale
+
+//@ func clamp
+//@   model xreal
+//@   ensures [range]    !isnan(x) ==> 0 <= result && result <= 1
+//@   ensures [identity] 0 <= x && x <= 1 ==> result == x
+//@   ensures [low]      x < 0 ==> result == 0
+//@   ensures [high]     x > 1 ==> result == 1
+//@   ensures [nan]      isnan(x) ==> isnan(result)
+//@   assigns nothing
+
+//@ assume pure Ticker.CountTicks
+
+//@ func TickOptions.FindLevel
+//@   model int
+//@   results l, ok
+//@   let lo = (o.MinLevel == 0 && o.MaxLevel == 0) ? -1000 : o.MinLevel
+//@   let hi = (o.MinLevel == 0 && o.MaxLevel == 0) ? 1000 : o.MaxLevel
+//@   requires o != nil
+//@   requires forall a int, b int :: a <= b ==> ticker.CountTicks(a) >= ticker.CountTicks(b)
+//@   ensures [found]   ok ==> lo <= l && l <= hi && ticker.CountTicks(l) <= o.Max
+//@   ensures [lowest]  ok ==> (forall m in lo..l :: ticker.CountTicks(m) > o.Max)
+//@   ensures [fail]    !ok ==> l == 0 && (o.Max < 1 || lo > hi || (forall m in lo..hi+1 :: ticker.CountTicks(m) > o.Max))
+//@   ensures [nofalsefail] ok || o.Max < 1 || lo > hi || ticker.CountTicks(hi) > o.Max
+//@   loop 1 (l) invariant minLevel == lo && maxLevel == hi && lo-1 <= l && l+1 <= hi && ticker.CountTicks(l+1) <= o.Max && o.Max >= 1
+//@   loop 2 (l) invariant minLevel == lo && maxLevel == hi && lo <= l && l <= hi+1 && (forall m in lo..l :: ticker.CountTicks(m) > o.Max) && o.Max >= 1
+//@   assigns nothing
